@@ -143,6 +143,9 @@ func FuncName(f interface{}) string {
 	return n
 }
 
+// TypeOf returns the dynamic type of x as fmt's %T prints it.
+func TypeOf(x interface{}) string { return fmt.Sprintf("%T", x) }
+
 // IsSymbolic reports whether the engine is running (false natively).
 func IsSymbolic() bool { return false }
 
